@@ -91,7 +91,8 @@ def run(ctx: Ctx) -> dict:
     c13model.run_model(ctx)
     rng = random.Random(ctx.seed + 13)
     table = ctx.table(env)
-    ops = build_ops(ctx, table, rng)
+    import fuzz
+    ops = fuzz.extend(ctx, build_ops(ctx, table, rng), "c13", n_seeds=600, quick=1500, thorough=40000)
     events = calls.execute(ctx, ops, "c13")
     mism = calls.validate(ctx, "TraceRandom", events, env, "c13", per_shard=1500 if ctx.quick else 4000)
     calls.report(ctx, mism, None, keyfn)
